@@ -6,7 +6,7 @@ import hashlib
 
 from mc import core, joinspace as js, provenance
 
-NROUTES = len(provenance.TABLE_ROUTES)
+NROUTES = len(provenance.TABLE_ROUTES_ALL)
 from mc.core import Agg, V
 from mc.models import obs, truthful
 
@@ -52,7 +52,7 @@ def run_unit(unit):
                     vi += 1
                     L, lon, lcols = js.build_side("L", lkeys, nkeys, config, form, variant=vi % NROUTES)
                     R, ron, rcols = js.build_side("R", rkeys, nkeys, config, form, variant=(vi // NROUTES) % NROUTES)
-                    case["routes"] = [provenance.TABLE_ROUTES[vi % NROUTES], provenance.TABLE_ROUTES[(vi // NROUTES) % NROUTES]]
+                    case["routes"] = [provenance.TABLE_ROUTES_ALL[vi % NROUTES], provenance.TABLE_ROUTES_ALL[(vi // NROUTES) % NROUTES]]
                 except Exception as e:
                     agg.violation(V("join.build-inputs", "raises-" + type(e).__name__, case))
                     continue
